@@ -33,7 +33,7 @@ try:
             names = [os.path.basename(w) for w in m.group(1).split() if os.path.isfile(os.path.join(seed, os.path.basename(w)))]
             for name in names:
                 src = os.path.join(seed, name)
-                dst = m.group(2)
+                dst = re.sub(r"^<[^>]+>/", "", m.group(2))  # "<repo>/core/..." -> "core/..."
                 if os.path.isdir(os.path.join(wt, dst)) or dst.endswith("/") or len(names) > 1:
                     dst = os.path.join(dst, name)
                 copies.append((src, dst))
